@@ -56,15 +56,28 @@ Theorem v3_gap_free_accepted : forall truelen si segs,
 Proof. exact v3_gap_free_restores. Qed.
 Print Assumptions v3_gap_free_accepted.
 
-(** "accepted => gap-free" holds only under two side conditions the listing cannot establish ... *)
+(** (since 842e1af) the files of an accepted plan are index-uniform; a continuation of another index fails *)
+Theorem v3_plan_uniform : forall (si : N) (segs : list seg) (plan : list walfile),
+  apply_segs si segs = inr plan -> forallb file_uniform plan = true.
+Proof. exact v3_plan_uniform_thm. Qed.
+Print Assumptions v3_plan_uniform.
+
+Theorem v3_foreign_continuation_errors : forall (si : N) (pre : list seg) (s : seg) (post : list seg),
+  sg_off s <> 0 -> sg_idx s + 1 <> si + starts pre ->
+  exists e, apply_segs si (pre ++ s :: post) = inl e.
+Proof. exact v3_foreign_continuation_errors_thm. Qed.
+Print Assumptions v3_foreign_continuation_errors.
+
+(** "accepted => gap-free" holds under the one side condition the listing cannot establish
+    (non-final WAL files have their true length) ... *)
 Theorem v3_accepted_gap_free_partial : forall truelen si segs plan,
   apply_segs si segs = inr plan ->
-  Forall (fun w => file_uniform w = true) plan -> nonfinal_complete truelen plan ->
+  nonfinal_complete truelen plan ->
   gap_free truelen segs None si = true.
 Proof. exact v3_ok_gap_free_partial. Qed.
 Print Assumptions v3_accepted_gap_free_partial.
 
-(** ... and is false without them: F8 (trailing segment of a non-final index lost) *)
+(** ... and is false without it: F8 (trailing segment of a non-final index lost) *)
 Theorem v3_trailing_segment_loss_refuted :
   exists (full lost : layout) (truelen : N -> N) (s : snap) (plan : list walfile),
     gap_free truelen (filter (seg_eligible (sn_idx s) 0) (segs_of full (sn_gen s))) None (sn_idx s) = true /\
@@ -75,19 +88,6 @@ Theorem v3_trailing_segment_loss_refuted :
     restore_v3 lost 0 = V3Ok s plan /\ map fst plan = [0; 1].
 Proof. exact v3_trailing_segment_loss_refuted_thm. Qed.
 Print Assumptions v3_trailing_segment_loss_refuted.
-
-(** and: first segment of the final index lost, continuation of that index appended to the previous WAL file *)
-Theorem v3_foreign_continuation_refuted :
-  exists (full lost : layout) (truelen : N -> N) (s : snap) (plan : list walfile),
-    gap_free truelen (filter (seg_eligible (sn_idx s) 0) (segs_of full (sn_gen s))) None (sn_idx s) = true /\
-    (exists plan0, restore_v3 full 0 = V3Ok s plan0) /\
-    lost = [mkGen (g_snaps (nth 0 full (mkGen [] [])))
-                  (filter (fun x => negb ((sg_idx x =? 1) && (sg_off x =? 0))) (g_segs (nth 0 full (mkGen [] []))))] /\
-    gap_free truelen (filter (seg_eligible (sn_idx s) 0) (segs_of lost (sn_gen s))) None (sn_idx s) = false /\
-    restore_v3 lost 0 = V3Ok s plan /\
-    forallb file_uniform plan = false.
-Proof. exact v3_foreign_continuation_refuted_thm. Qed.
-Print Assumptions v3_foreign_continuation_refuted.
 
 Theorem v3_arbitration : forall (l : layout) (x : ltxside) (T : N),
   Forall (fun t => 0 < t) (v3_times l) -> Forall (fun t => 0 < t) (ltx_times x) ->
